@@ -211,7 +211,7 @@ def playback_for(root, h, features):
     return tests[0] if tests else None
 
 
-def run_for(prop, tier):
+def run_for(prop, tier, known_names=frozenset()):
     import driver
     rd = driver.ready()
     hs = [h for h in load_harnesses() if prop in h["props"] and (tier == "thorough" or h.get("tier", "quick") == "quick")
@@ -246,7 +246,8 @@ def run_for(prop, tier):
             kr["harnesses"].append({"name": h["name"], "kind": h["kind"], "status": r["status"], "checks": r["checks"], "time_s": r["time_s"], "bound": h.get("bound"), "obligation": h.get("obligation")})
             if r["status"] == "FAILED":
                 name = f"kani/{h['module']}/{h.get('obligation', h['name'])}"
-                test = playback_for(root, h, feats)
+                # no counterexample search for registered known findings (they have native demonstrations already)
+                test = None if name in known_names else playback_for(root, h, feats)
                 os.makedirs(os.path.join(VERIF, "replay"), exist_ok=True)
                 hh = hashlib.sha256(name.encode()).hexdigest()[:10]
                 path = os.path.join(VERIF, "replay", f"{prop}-{hh}.json")
